@@ -445,6 +445,18 @@ func (x *Exec) builtin(st *State, fr *Frame, resInstr ssa.Instruction, b *ssa.Bu
 				if _, ok := res.(IfaceV); !ok {
 					res = x.makeIface(st, res, res.GoType(), types.NewInterfaceType(nil, nil))
 				}
+				if iv, ok := res.(IfaceV); ok && !x.panicNilPossible() {
+					// go1.21+: a nil panic value reaches recover() as a non-nil *runtime.PanicNilError
+					pn := x.freshValue(st, "panicnil", types.NewInterfaceType(nil, nil)).(IfaceV)
+					st.assume(not(eq(pn.Tag, intLit(0))))
+					isNil := eq(iv.Tag, intLit(0))
+					a, b := x.flatten(iv), x.flatten(pn)
+					ts := make([]Term, len(a))
+					for i := range a {
+						ts[i] = ite(isNil, b[i], a[i])
+					}
+					res, _ = x.unflatten(types.NewInterfaceType(nil, nil), ts)
+				}
 				parent.panicking = false
 				parent.recovered = true
 			}
